@@ -6,7 +6,6 @@ every mode n, every count 1 <= r <= size(n) and both settings of `flipsign`, the
 its result compared with the mode-n Gram matrix of the reference array (mc.refmodel, numpy.linalg.eigh).
 """
 
-import itertools
 from math import prod
 
 import numpy as np
@@ -27,7 +26,9 @@ RULE = ("product explorer: (array of a fixed integer-valued family) x (mode n) i
 ASSUMPTIONS = ["reference unfolding/Gram in mc/refmodel.py (loops) and numpy.linalg.eigh are correct",
                "data are small integers, so the reference Gram matrix is exact; eigen-relations are compared with "
                "tolerance 1e-8*lambda_1, orthonormality 1e-8, projectors 1e-7 (DESIGN 4.3)",
-               "ARPACK start vectors are not controlled: results are compared up to rounding, never bitwise",
+               "ARPACK's internally random start vector is replaced by a member of a fixed pool of generic vectors "
+               "(scipy.sparse.linalg.eigsh/eigs wrapped while nvecs runs; selected by seed, mode, r) so that every case "
+               "and replay is reproducible; results are still compared up to rounding, never bitwise",
                "holders are built by mc/holders.py; Kruskal/Tucker holders of a plain array use unit-vector / "
                "identity factors"]
 BOUNDS = {
@@ -37,7 +38,8 @@ BOUNDS = {
              "holders: tensor, sptensor x2 orders, ktensor, ttensor dense core / sparse core / sparse core with "
              "scipy.sparse factors (+ native)",
     "thorough": "all shapes of order 2-3 with sizes 2..6 and <= 72 cells, order 4 with sizes 2..3 and <= 36 cells, "
-                "1-way sizes 2..6 and shapes with singleton modes; 22 members per shape; tensor also from a C-ordered "
+                "1-way sizes 2..6 and 9 shapes with singleton modes; 24-28 members per shape (more seeds, rank 3 + noise, "
+                "single-entry, descending diagonal Gram, 5 Kruskal-native, up to 8 Tucker-native); tensor also from a C-ordered "
                 "buffer, sptensor in 4 stored orders; everything else as quick",
 }
 CHUNK = 4
@@ -359,6 +361,45 @@ def _flag_tucker_branch(ctx, T, n):
         ctx.flag("ttensor:probe_failed")
 
 
+def start_vector(n, salt):
+    """Member `salt` of a fixed pool of generic start vectors (closed form, no sampling)."""
+    return np.array([1.0 + 0.5 * np.sin(1.0 + 2.3 * i + 0.7 * salt) for i in range(n)])
+
+
+class FixedArpackStart:
+    """ARPACK draws its start vector from an internal generator whose state survives between calls, so two
+    executions of the same case would differ in rounding (and, for a defective caller, in column order and
+    signs).  While the real nvecs runs, scipy.sparse.linalg.eigsh/eigs get a start vector from a fixed pool
+    (selected by seed, mode and r) unless the caller passes one.  pyttb itself is not touched."""
+
+    def __init__(self, salt, ctx, kind):
+        self.salt, self.ctx, self.kind = salt, ctx, kind
+
+    def __enter__(self):
+        import scipy.sparse.linalg as sla
+
+        self.sla, self.orig = sla, (sla.eigsh, sla.eigs)
+
+        def wrap(f, nm):
+            def g(A, k=6, *args, **kw):
+                self.ctx.flag(f"solver:{nm}:{self.kind}")
+                if not args and kw.get("v0") is None:
+                    kw["v0"] = start_vector(A.shape[0], self.salt)
+                return f(A, k, *args, **kw)
+            return g
+
+        sla.eigsh, sla.eigs = wrap(self.orig[0], "eigsh"), wrap(self.orig[1], "eigs")
+        return self
+
+    def __exit__(self, *exc):
+        self.sla.eigsh, self.sla.eigs = self.orig
+        return False
+
+
+def _vseed(d):
+    return int(d.get("vseed", d.get("h", {}).get("vseed", 0)))
+
+
 def _one_call(ctx, sub, A, G, w, Vref, name, kind, n, r, flip, path, adm, strict):
     d = sub["data"]
     size = A.shape[n]
@@ -373,7 +414,8 @@ def _one_call(ctx, sub, A, G, w, Vref, name, kind, n, r, flip, path, adm, strict
     before = O.snapshot(X)
     ctx.tick()
     try:
-        V = X.nvecs(n, r, flipsign=flip)
+        with FixedArpackStart(_vseed(d) + 3 * n + 7 * r, ctx, kind):
+            V = X.nvecs(n, r, flipsign=flip)
     except Exception as e:  # noqa: BLE001
         if kind == "sptensor" and max(A.shape) == 1 and isinstance(e, ValueError):
             # sparse tensors with only singleton modes are rejected on purpose (explicit message, pinned upstream)
@@ -471,13 +513,18 @@ KINDS = ("tensor", "sptensor", "ktensor", "ttensor")
 
 
 def finalize(tier, seed, totals):
-    """Vacuity control: both solver paths must have been asserted for every representation."""
+    """Vacuity control: for every representation the dense side must have been asserted and the iterative
+    (ARPACK) solver must actually have been entered - observed through the wrapped scipy entry points."""
     for kind in KINDS:
-        for path in ("iterative", "dense"):
-            if f"path:{path}:{kind}" not in totals.flags:
-                totals.failures.append({"check": "nvecs", "op": kind + ".nvecs", "variant": path,
-                                        "symptom": "vacuous", "case": {"check": "vacuity", "kind": kind, "path": path},
-                                        "detail": "solver path never completed for this representation"})
+        missing = []
+        if f"path:dense:{kind}" not in totals.flags:
+            missing.append(("dense", "no call with r >= size-1 returned"))
+        if not any(f"solver:{nm}:{kind}" in totals.flags for nm in ("eigsh", "eigs")):
+            missing.append(("iterative", "the ARPACK solver was never entered"))
+        for path, why in missing:
+            totals.failures.append({"check": "nvecs", "op": kind + ".nvecs", "variant": path,
+                                    "symptom": "vacuous", "case": {"check": "vacuity", "kind": kind, "path": path},
+                                    "detail": why + " for this representation: the bounds no longer cover both paths"})
 
 
 def _run_vacuity(case, ctx):
